@@ -270,3 +270,18 @@ Definition dispatch_matches (c : config) (method : string) (table : string * lis
   | None => false
   end
   && (String.eqb (fst table) "self . tag" || String.eqb (fst table) "tag").
+
+(* ---- the configuration space (C10): every cfg predicate, cfg!(), target_feature(enable = ..) and run-time detection in the
+   source mentions only the features, architectures and cargo features the model's [config] has a field for; a predicate on
+   anything else (say target_feature = "avx512vl") would select code in builds the 256 modelled configurations do not
+   distinguish *)
+Definition cfg_space : list (string * list string) :=
+  [("target_feature", ["sse4.1"; "avx2"; "simd128"]); ("feature", ["std"]); ("target_arch", ["x86_64"; "aarch64"]);
+   ("target_family", ["wasm"]); ("detected", ["sse4.1"; "avx2"]); ("enable", ["sse4.1"; "avx2"])].
+Fixpoint cfg_lookup (k : string) (t : list (string * list string)) : option (list string) :=
+  match t with [] => None | (k', vs) :: t' => if String.eqb k k' then Some vs else cfg_lookup k t' end.
+Definition cfg_pair_ok (kv : string * string) : bool :=
+  match cfg_lookup (fst kv) cfg_space with Some vs => mem_str (snd kv) vs | None => false end.
+(* the verification hook of src/aarch64.rs is guarded by the bare flag highway_verif (no value): not a key = "value" pair *)
+Definition cfg_space_ok (fs : list file_facts) : bool := forallb (fun f => forallb cfg_pair_ok (ff_cfg_values f)) fs.
+
